@@ -24,7 +24,7 @@ impl PartialEq<&str> for TName {
 }
 
 #[derive(Clone, Copy)]
-pub struct Rule { pub name: TName, pub target: Option<ConnRef>, pub init_ok: bool, pub inited: bool }
+pub struct Rule { pub name: TName, pub target: Option<ConnRef>, pub init_ok: bool, pub inited: bool, pub tag: u8 }
 static mut N_INIT: u32 = 0;
 impl Rule {
     /// contract of Rule::init: compiles + type-checks the filter; may fail; only a successful init arms the rule
@@ -43,9 +43,17 @@ impl<T> Arc<T> { pub fn get_mut(this: &mut Arc<T>) -> Option<&mut T> { Some(&mut
 impl<T> std::ops::Deref for Arc<T> { type Target = T; fn deref(&self) -> &T { &self.0 } }
 
 #[derive(Clone, Copy)]
-pub struct Vec<T: Copy> { pub items: [T; MAX], pub len: usize, pub version: u32 }
+pub struct Vec<T: Copy> { pub items: [T; MAX], pub len: usize }
+pub struct VecIntoIter<T: Copy> { v: Vec<T>, pos: usize }
+impl<T: Copy> Iterator for VecIntoIter<T> { type Item = T; fn next(&mut self) -> Option<T> { if self.pos < self.v.len { let x = self.v.items[self.pos]; self.pos += 1; Some(x) } else { None } } }
+impl<T: Copy> IntoIterator for Vec<T> { type Item = T; type IntoIter = VecIntoIter<T>; fn into_iter(self) -> VecIntoIter<T> { VecIntoIter { v: self, pos: 0 } } }
 impl<T: Copy> Vec<T> {
     pub fn iter_mut(&mut self) -> std::slice::IterMut<'_, T> { self.items[..self.len].iter_mut() }
+    pub fn iter(&self) -> std::slice::Iter<'_, T> { self.items[..self.len].iter() }
+    pub fn len(&self) -> usize { self.len }
+    pub fn is_empty(&self) -> bool { self.len == 0 }
+    pub fn clear(&mut self) { self.len = 0; }
+    pub fn push(&mut self, x: T) { assert!(self.len < MAX, "stub Vec capacity"); self.items[self.len] = x; self.len += 1; }
 }
 
 pub struct ConnMap { pub conns: [ConnRef; N_CONN] }
@@ -55,13 +63,33 @@ impl ConnMap {
     }
 }
 
-static mut STORED: Vec<Arc<Rule>> = Vec { items: [Arc(Rule { name: TName::Deny, target: None, init_ok: true, inited: true }); MAX], len: 0, version: 0 };
-static mut N_WRITE: u32 = 0;
-pub struct RwLock;
-pub struct WriteGuard;
+const OLD_RULE: Rule = Rule { name: TName::Deny, target: None, init_ok: true, inited: true, tag: 1 };
+static mut STORED: Vec<Arc<Rule>> = Vec { items: [Arc(OLD_RULE); MAX], len: 0 };
+static mut OLD_LEN: usize = 0;
+static mut NEW_LEN: usize = 0;
+static mut N_GUARDS: u32 = 0;
+static mut RELEASED_PARTIAL: bool = false;
+/// is the stored list exactly the old one
+fn stored_is_old() -> bool { unsafe {
+    let mut ok = STORED.len == OLD_LEN;
+    let mut i = 0;
+    while i < MAX { if i < STORED.len && STORED.items[i].0.tag != 1 { ok = false; } i += 1; }
+    ok
+} }
+/// is the stored list the complete new one (every rule of the call, armed)
+fn stored_is_new() -> bool { unsafe {
+    let mut ok = STORED.len == NEW_LEN;
+    let mut i = 0;
+    while i < MAX { if i < STORED.len && (STORED.items[i].0.tag != 2 || !STORED.items[i].0.inited) { ok = false; } i += 1; }
+    ok
+} }
+pub struct RwLock(pub u8);
+pub struct WriteGuard(pub u8);
 impl std::ops::Deref for WriteGuard { type Target = Vec<Arc<Rule>>; fn deref(&self) -> &Self::Target { unsafe { &STORED } } }
-impl std::ops::DerefMut for WriteGuard { fn deref_mut(&mut self) -> &mut Self::Target { unsafe { N_WRITE += 1; &mut STORED } } }
-impl RwLock { pub async fn write(&self) -> WriteGuard { WriteGuard } }
+impl std::ops::DerefMut for WriteGuard { fn deref_mut(&mut self) -> &mut Self::Target { unsafe { &mut STORED } } }
+/// whenever the write lock is released, readers can see the list: it must be entirely old or entirely new
+impl Drop for WriteGuard { fn drop(&mut self) { unsafe { if !(stored_is_old() || stored_is_new()) { RELEASED_PARTIAL = true; } } } }
+impl RwLock { pub async fn write(&self) -> WriteGuard { unsafe { N_GUARDS += 1; } WriteGuard(0) } }
 
 pub struct GlobalState { pub rules: RwLock, pub connectors: ConnMap }
 
@@ -74,21 +102,22 @@ fn any_rule() -> Arc<Rule> {
     let id: usize = kani::any();
     kani::assume(id < N_CONN);
     let name = if k == 0 { TName::Deny } else if k == 1 { TName::Known(id) } else { TName::Unknown };
-    Arc(Rule { name, target: None, init_ok: kani::any(), inited: false })
+    Arc(Rule { name, target: None, init_ok: kani::any(), inited: false, tag: 2 })
 }
 
 #[cfg(kani)]
 fn run(bound: usize) {
     let n: usize = kani::any();
     kani::assume(n <= bound);
-    let new_rules: Vec<Arc<Rule>> = Vec { items: [any_rule(), any_rule(), any_rule()], len: n, version: 2 };
-    let st = GlobalState { rules: RwLock, connectors: ConnMap { conns: [ConnRef { id: 0 }, ConnRef { id: 1 }] } };
+    let new_rules: Vec<Arc<Rule>> = Vec { items: [any_rule(), any_rule(), any_rule()], len: n };
+    let st = GlobalState { rules: RwLock(0), connectors: ConnMap { conns: [ConnRef { id: 0 }, ConnRef { id: 1 }] } };
     unsafe {
-        // the list in force before the call (version 1, arbitrary length)
+        // the list in force before the call (arbitrary length)
         let old_len: usize = kani::any();
         kani::assume(old_len <= MAX);
         STORED.len = old_len;
-        STORED.version = 1;
+        OLD_LEN = old_len;
+        NEW_LEN = n;
     }
     let ret = kani::block_on(st.set_rules(new_rules));
 
@@ -104,19 +133,18 @@ fn run(bound: usize) {
     }
     unsafe {
         assert!(ret.is_ok() == all_ok);
+        // atomic for readers: no release of the write lock ever exposed a partly replaced list
+        assert!(!RELEASED_PARTIAL);
         if ret.is_err() {
-            // all-or-nothing: the previous list stays fully in force, nothing was written
-            assert!(N_WRITE == 0);
-            assert!(STORED.version == 1);
+            // all-or-nothing: the previous list stays fully in force
+            assert!(stored_is_old());
         } else {
-            // replaced exactly once, by the new list, every rule armed and resolved
-            assert!(N_WRITE == 1);
-            assert!(STORED.version == 2 && STORED.len == n);
+            // replaced by the new list, every rule armed and resolved to the connector of its name
+            assert!(stored_is_new() && N_GUARDS >= 1);
             let mut j = 0;
             while j < MAX {
                 if j < n {
                     let r = STORED.items[j].0;
-                    assert!(r.inited);
                     assert!(r.name == new_rules.items[j].0.name);
                     match r.name {
                         TName::Deny => assert!(r.target.is_none()),
@@ -140,7 +168,7 @@ fn set_rules_le3() { run(3) }
 #[kani::unwind(5)]
 fn set_rules_cover() {
     run(2);
-    unsafe { kani::cover!(N_WRITE == 1 && STORED.len == 2); kani::cover!(N_WRITE == 0 && N_INIT == 2); kani::cover!(N_WRITE == 0 && N_INIT == 1); }
+    unsafe { kani::cover!(N_GUARDS >= 1 && STORED.len == 2 && stored_is_new()); kani::cover!(N_GUARDS == 0 && N_INIT == 2); kani::cover!(N_GUARDS == 0 && N_INIT == 1); }
 }
 
 fn main() {}
